@@ -194,14 +194,24 @@ def run(ctx):
         elif name == "set_all_edge_weights":
             wl = b.param_local("weight")
             okw = False
-            for cb in prog.closures_of(b.path):
+            n_w = 0
+            for cb in [b] + list(prog.closures_of(b.path)):
                 cf = flows.of(cb)
                 for s in cb.stmts():
                     if s.k == "assign" and s.lhs.has_deref() and s.lhs.fields()[-1:] == ["weight"]:
+                        n_w += 1
                         srcsl = cf.slice_local(cf._op_reads(s.rv.ops[0]), data_only=True) if s.rv.ops else set()
-                        ups = {n[1] for n in srcsl if n[0] == "UPV"}
-                        other = [n for n in srcsl if n[0] == "CALL" or (n[0] == "SRC" and not (n[2] and n[2][0] == "^weight"))]
-                        okw = ups == {"weight"} and not other and not controlling_atoms(cf, s.bb)
+                        if cb.kind == "closure":
+                            ups = {n[1] for n in srcsl if n[0] == "UPV"}
+                            other = [n for n in srcsl if n[0] == "CALL" or (n[0] == "SRC" and not (n[2] and n[2][0] == "^weight"))]
+                        else:
+                            ups = {cb.local_name(n[1]) for n in srcsl if n[0] == "L" and isinstance(n[1], int) and 1 <= n[1] <= cb.arg_count}
+                            other = [n for n in srcsl if n[0] in ("CALL", "SRC")]
+                        # the only tests allowed in front of the assignment are those of the loop that walks the edges
+                        # (`next()` returned Some)
+                        conds = [te for (te, v, a) in controlling_atoms(cf, s.bb) if not (isinstance(te, tuple) and te[0] == "discr" and "next(" in fmt_desc(te))]
+                        good = ups == {"weight"} and not other and not conds
+                        okw = good if n_w == 1 else (okw and good)
             ctx.require(okw and "edges" in efs, "R-C15-4", "edges|set_all_edge_weights", "every edge's weight is assigned exactly the `weight` parameter, unconditionally", "the new weight is not simply the parameter", loc_str(c.span))
         elif name == "to_single_edges":
             # the body that builds the collapsed edge: a helper (collapse_edges), a closure, or to_single_edges itself
